@@ -42,7 +42,7 @@ type modeSeq struct {
 func encModes(ms []modeDef) string {
 	var parts []string
 	for _, m := range ms {
-		parts = append(parts, m.Name+":"+encList(m.Values))
+		parts = append(parts, esc(m.Name)+":"+encNames(m.Values))
 	}
 	if len(parts) == 0 {
 		return "-"
@@ -53,7 +53,7 @@ func encModes(ms []modeDef) string {
 func encMap(m map[string]string) string {
 	var parts []string
 	for _, k := range sortedKeys(m) {
-		parts = append(parts, k+"="+m[k])
+		parts = append(parts, esc(k)+"="+esc(m[k]))
 	}
 	return encList(parts)
 }
@@ -61,7 +61,7 @@ func encMap(m map[string]string) string {
 func encRel(m map[string]int32) string {
 	var parts []string
 	for _, k := range sortedKeys(m) {
-		parts = append(parts, k+"="+strconv.Itoa(int(m[k])))
+		parts = append(parts, esc(k)+"="+strconv.Itoa(int(m[k])))
 	}
 	return encList(parts)
 }
@@ -209,8 +209,8 @@ func (c *modeSeq) Check(m *lib.Monitor, code string) {
 	usedModes := map[string][]string{}
 	for _, part := range strings.Split(c.used, "/") {
 		if kv := strings.SplitN(part, ":", 2); len(kv) == 2 {
-			if _, ok := usedModes[kv[0]]; !ok {
-				usedModes[kv[0]] = decList(kv[1])
+			if _, ok := usedModes[unesc(kv[0])]; !ok {
+				usedModes[unesc(kv[0])] = decList(kv[1])
 			}
 		}
 	}
@@ -266,7 +266,7 @@ func init() {
 	decoders["mode/seq"] = decoder[modeSeq]()
 	builders = append(builders, func(f lib.Flags, res *lib.Result, rng *rand.Rand) []*section {
 		s := &section{name: "mode/seq",
-			tie: res.Tie("mode.ModelServer.UpdateModeValues sequences", "K1", "random configurations (NewModelModes with 1..3 modes of 1..4 values [5% duplicate value, 5% duplicate mode name] 85%, NewModel() 15%) and 1..8 updates (relative entries on known modes 80%/unknown 20%, steps in -5..5 90% / near +-2^31 10%; explicit values known/garbage; mask none or 'values'); short sequences first; non-trivial = some relative entry; distinct by config + request line"),
+			tie: res.Tie("mode.ModelServer.UpdateModeValues sequences", "K1", "random configurations (NewModelModes with 1..3 modes of 1..4 values [5% duplicate value, 5% duplicate mode name] 85%, NewModel() 15%) and 1..8 updates (relative entries on known modes 80%/unknown 20%, steps in -5..5 90% / near +-2^31 10%; explicit values known/garbage; about 10% of mode names and values in requests are near-miss variants of configured ones (case, padding, prefix, extension, look-alike, empty); mask none or 'values'); short sequences first; non-trivial = some relative entry; distinct by config + request line"),
 			mon: res.Monitor("mode.relative-step and config vs table lookup", "Modes() and initial values are the configured ones; relative k from index i of n distinct values selects (i+k) mod n (math/big Euclidean), unknown/absent current value selects the first; explicit values are stored; no panic")}
 		modeNames := []string{"temp", "spin", "eco"}
 		valNames := []string{"v0", "v1", "v2", "v3", "v4", "v5"}
@@ -307,6 +307,8 @@ func init() {
 						name := pick(rng, names)
 						if rng.Intn(5) == 0 {
 							name = "nomode"
+						} else if rng.Intn(8) == 0 {
+							name = nearMiss(rng, name)
 						}
 						step := int32(rng.Intn(11) - 5)
 						if rng.Intn(10) == 0 {
@@ -322,8 +324,14 @@ func init() {
 						v := pick(rng, d.Values)
 						if rng.Intn(4) == 0 {
 							v = "garbage"
+						} else if rng.Intn(6) == 0 {
+							v = nearMiss(rng, v)
 						}
-						o.Values[d.Name] = v
+						key := d.Name
+						if rng.Intn(12) == 0 {
+							key = nearMiss(rng, key)
+						}
+						o.Values[key] = v
 					}
 				}
 				c.Ops = append(c.Ops, o)
